@@ -26,7 +26,7 @@ REQUIRED_CLASSES = ["config-ok", "lattice-ok", "reject-ok"]
 RULE = ("one unit = one configuration: data_type x num_channels {1,2,3} x "
         "encoding (raw; compressed_segmentation blocks [8,8,8],[2,2,2],"
         "[2,1,4]; jpeg xy/xz at quality 95/100) x accessor (deep/flat x "
-        "gzip/no-gzip, sharded in-memory / on-disk) x info (one scale "
+        "gzip/no-gzip, sharded in-memory / on-disk with raw/raw, gzip/raw, raw/gzip, gzip/gzip index/data encodings) x info (one scale "
         "(5,4,3)/2^3; two scales adding (3,2,2)/4^3; a scale listing two chunk sizes, file accessors only). "
         "Histories: every "
         "ordered selection of <= 3 (quick) / 4 (thorough) writes to distinct "
@@ -59,7 +59,13 @@ ACCESSORS = [{"cls": "file", "flat": False, "gzip": True},
              {"cls": "file", "flat": False, "gzip": False},
              {"cls": "file", "flat": True, "gzip": True},
              {"cls": "sharded", "strategy": "in memory"},
-             {"cls": "sharded", "strategy": "on disk"}]
+             {"cls": "sharded", "strategy": "on disk"},
+             {"cls": "sharded", "strategy": "on disk", "index_enc": "gzip",
+              "data_enc": "raw"},
+             {"cls": "sharded", "strategy": "in memory", "index_enc": "raw",
+              "data_enc": "gzip"},
+             {"cls": "sharded", "strategy": "on disk", "index_enc": "gzip",
+              "data_enc": "gzip"}]
 CONTENTS = ["ramp", "checker-be"]
 
 
@@ -94,8 +100,10 @@ def make_info(cfg):
             s["sharding"] = {"@type": "neuroglancer_uint64_sharded_v1",
                              "hash": "identity", "minishard_bits": 1,
                              "shard_bits": 1, "preshift_bits": 0,
-                             "minishard_index_encoding": "raw",
-                             "data_encoding": "raw"}
+                             "minishard_index_encoding":
+                             cfg["acc"].get("index_enc", "raw"),
+                             "data_encoding":
+                             cfg["acc"].get("data_enc", "raw")}
         scales.append(s)
     return {"type": "image", "data_type": cfg["dtype"],
             "num_channels": cfg["channels"], "scales": scales}
@@ -405,7 +413,8 @@ def configs(tier):
     dtypes = ["uint8", "uint32"] if tier == "quick" else [
         "uint8", "uint16", "uint32", "uint64", "float32"]
     accs = ACCESSORS if tier == "thorough" else [ACCESSORS[0], ACCESSORS[1],
-                                                  ACCESSORS[4], ACCESSORS[5]]
+                                                  ACCESSORS[5], ACCESSORS[6],
+                                                  ACCESSORS[7]]
     for dt in dtypes:
         for nch in (1, 2, 3):
             for enc in encodings(dt, nch):
